@@ -23,8 +23,8 @@ EXTRACT_BIN = os.path.join(CACHE, "extract-target", "release", "extract")
 HEADER = ("#![allow(unused_imports, non_snake_case, unused_variables, unused_mut, redundant_semicolons, "
           "unused_parens, dead_code, unused_braces, non_camel_case_types)]\nuse vstd::prelude::*;\nverus! {\n")
 FOOTER = "\n} // verus!\nfn main() {}\n"
-EXEC_SHARDS = {"HyperHyperDual": 5, "Dual3": 2, "HyperDual": 2}
-NL_SHARDS = {"HyperHyperDual": 8, "Dual3": 3, "HyperDual": 3, "Dual2": 2, "Dual": 2, "DualVec": 2, "Dual2Vec": 3, "HyperDualVec": 3}
+EXEC_SHARDS = {"Dual__Dual__Dual": 5, "Dual__Dual": 2, "HyperHyperDual": 5, "Dual3": 2, "HyperDual": 2}
+NL_SHARDS = {"Dual__Dual": 2, "Dual__Dual__Dual": 8, "HyperHyperDual": 8, "Dual3": 3, "HyperDual": 3, "Dual2": 2, "Dual": 2, "DualVec": 2, "Dual2Vec": 3, "HyperDualVec": 3}
 NL_TIMEOUT_MS = int(os.environ.get("VERIF_NL_TIMEOUT_MS", "30000"))
 VECTOR_UNITS = ["DualVec", "Dual2Vec", "HyperDualVec"]
 SCALAR_TYPES = ["Dual", "Dual2", "Dual3", "HyperDual", "HyperHyperDual"]
@@ -64,12 +64,25 @@ def expand(features=""):
     return out, time.time() - t0
 
 
+def inner_chain(unit):
+    """Dual__Dual__Dual -> [Dual__Dual, Dual]"""
+    out = []
+    while "__" in unit:
+        unit = unit.split("__", 1)[1]
+        out.append(unit)
+    return out
+
+
 def extract(expanded, units):
     if not os.path.exists(EXTRACT_BIN):
         raise Undecided("extractor not built; run MANIFEST.setup_cmd")
     units = list(units)
     if any(u in VECTOR_UNITS for u in units) and "Derivative" not in units:
         units.append("Derivative")
+    for u in list(units):
+        for inner in inner_chain(u):
+            if inner not in units:
+                units.append(inner)
     p = subprocess.run([EXTRACT_BIN, expanded, os.path.join(VERIF, "contracts", "contracts.json"), GEN] + units,
                        capture_output=True, text=True)
     if p.returncode != 0:
@@ -121,6 +134,10 @@ def assemble(unit, meta, extra_lemmas=None):
         emit("\n// ===== Derivative: contracts only (external_body stubs); the bodies are verified in unit Derivative =====\n")
         emit(open(os.path.join(GEN, "Derivative.iface.rs")).read())
     emit(speclib.generate())
+    for inner in reversed(inner_chain(unit)):
+        emit("\n// ===== inner type %s of the nesting: mirrors + contracts only (bodies are verified in unit %s) =====\n" % (inner, inner))
+        emit(open(os.path.join(GEN, inner + ".mirror.rs")).read())
+        emit(open(os.path.join(GEN, inner + ".iface.rs")).read())
     emit("\n// ===== mirrors (generated by symbolic evaluation; re-proved against the verbatim bodies below) =====\n")
     emit(open(os.path.join(GEN, unit + ".mirror.rs")).read())
     emit("\n// ===== exec: verbatim bodies with contract headers (sharded into modules ex0..exK-1) =====\n")
@@ -143,7 +160,9 @@ def assemble(unit, meta, extra_lemmas=None):
     elif unit == "F64":
         ls = lemmas.gen_float_lemmas(meta)
     else:
-        ls = lemmas.gen_type_lemmas(meta) + lemmas.gen_field_lemmas(meta) + lemmas.gen_transparency_lemmas(meta) + lemmas.gen_cmp_lemmas(meta)
+        ls = lemmas.gen_type_lemmas(meta)
+        if "__" not in unit:
+            ls += lemmas.gen_field_lemmas(meta) + lemmas.gen_transparency_lemmas(meta) + lemmas.gen_cmp_lemmas(meta)
     if extra_lemmas:
         ls += extra_lemmas
     emit("\n// ===== flat non-linear property lemmas (sharded into modules nl0..nlK-1; `nl` re-exports all) =====\n")
